@@ -55,6 +55,7 @@ struct Item
 {
     std::vector<uint16_t> prefix, prefix_n;
     int cost = 0;
+    int free_used = 0;    // non-default choices taken at blocking points (cost 0)
     int retries = 0;
     int confirm = 0;    // 1: confirmation re-run of a failing schedule
 };
@@ -411,9 +412,12 @@ void explore_spec(int si, int bound, double budget, SpecStats& st, Violation& vi
         {
             int nc = it.cost + r->cost[i];
             if (nc > bound) continue;
+            int nf = it.free_used + ((r->kind[i] == CK_BLOCK && r->cost[i] == 0) ? 1 : 0);
+            if (g_cfg->free_block_bound > 0 && nf > g_cfg->free_block_bound) continue;
             for (int alt = 1; alt < r->n[i]; ++alt)
             {
                 Item ni;
+                ni.free_used = nf;
                 ni.prefix.assign(r->c, r->c + i);
                 ni.prefix.push_back((uint16_t) alt);
                 ni.prefix_n.assign(r->n, r->n + i + 1);
@@ -810,6 +814,7 @@ extern "C" int pmc_main(int argc, char** argv, const pmc_config* cfg, const pmc_
         fprintf(f, " \"executions\": %ld, \"transitions\": %ld, \"distinct_traces\": %zu, \"distinct_nontrivial\": %zu, \"exhaustive\": %s,\n",
             execs, trans, distinct, nontriv, exh ? "true" : "false");
         fprintf(f, " \"rule\": \"%s\",\n", jesc(cfg->rule ? cfg->rule : "").c_str());
+        fprintf(f, " \"free_block_choice_bound\": %d,\n", cfg->free_block_bound);
         fprintf(f, " \"violation\": %s, \"exit\": %d, \"wall_s\": %.2f, \"jobs\": %d,\n", viol.found ? "true" : "false", rc, now_s() - t_start, g_jobs);
         if (viol.found)
             fprintf(f, " \"violation_key\": \"%s\", \"violation_replay\": \"%s\", \"violation_msg\": \"%s\",\n", jesc(viol.key).c_str(), jesc(viol.replay_path).c_str(), jesc(viol.msg).c_str());
